@@ -141,7 +141,14 @@ class Prop:
         step = 1 if ctx.tier == 'thorough' else 4
         # (very short lines - empty, blanks, a lone delimiter - are always among the embedded ones)
         short = [x for x in muts if len(x[2]) <= 12 or x[1].startswith(('tagblock-', 'payload-len-', 'frag-', 'noise'))]
-        for frame, sub in ((frame_a, muts[::step] + [x for x in short if x not in muts[::step]]), (frame_b, [x for x in muts if x[0] in ('frag1', 'frag2')][::max(1, step // 2)])):
+        # third / fourth frame: the mutated fragment next to its own partner (one reassembly slot holds a sentence that
+        # says "1 of 3" or "2 of 9" and an intact "2 of 2" / "1 of 2"): whatever is made of the pair, no reader raises and
+        # the messages in other slots arrive
+        frame_c1 = lambda m: [base['single'], m, base['two'][1], other_single, three[0], three[1], three[2]]
+        frame_c2 = lambda m: [base['single'], base['two'][0], m, other_single, three[0], three[1], three[2]]
+        for frame, sub in ((frame_a, muts[::step] + [x for x in short if x not in muts[::step]]), (frame_b, [x for x in muts if x[0] in ('frag1', 'frag2')][::max(1, step // 2)]),
+                           (frame_c1, [x for x in muts if x[0] == 'frag1' and x[1].startswith(('sub[', 'frag-'))][::max(1, step // 2)]),
+                           (frame_c2, [x for x in muts if x[0] == 'frag2' and x[1].startswith(('sub[', 'frag-'))][::max(1, step // 2)])):
           clean = [l for l in frame(None) if l is not None]
           # reassembly slot of every mutated line / of the first fragment of every delivery: computed once
           mslots = dict(zip([m for _, _, m in sub],
